@@ -23,7 +23,8 @@ def inputs(ctx):
     out = [("1HPX", corpus.test_pdb_text("1HPX")), ("3SGB-subset", corpus.test_pdb_text("3SGB-subset")),
            ("frag-1HPX-A20+8", corpus.fragment("1HPX", "A", 20, 8)), ("none", corpus.no_group_structure()),
            ("sample-issue-140", corpus.test_pdb_text("sample-issue-140")),
-           ("frag-3SGB-E0+15", corpus.fragment("3SGB", "E", 0, 15))]
+           ("frag-3SGB-E0+15", corpus.fragment("3SGB", "E", 0, 15)),
+           ("frag-1HPX-A6+4", corpus.fragment("1HPX", "A", 6, 4)), ("frag-4DFR-A30+5", corpus.fragment("4DFR", "A", 30, 5))]
     if ctx.thorough():
         out += [(n, corpus.test_pdb_text(n)) for n in ("3SGB", "1FTJ-Chain-A", "4DFR", "conf-alt-AB", "conf-model-mutant")]
         out += [("frag-1FTJ-A100+30", corpus.fragment("1FTJ-Chain-A", "A", 100, 30)),
